@@ -644,7 +644,7 @@ func main() {
 		ModelJobs: func(env *fw.Env) []fw.TLCJob {
 			lv, lvU, lvS := "10", "8", "10"
 			if env.Tier == "thorough" {
-				lv, lvU, lvS = "99", "12", "99" // 99 = complete state graph
+				lv, lvU, lvS = "99", "10", "99" // 99 = complete state graph
 			}
 			to := 40 * time.Minute // generous: the machine may be shared
 			return withTimeout(to, []fw.TLCJob{
